@@ -309,7 +309,7 @@ sys.path.insert(0, %(verif)r)
 import numpy as np
 backend = sys.argv[1]
 from klongpy import KlongInterpreter
-from klongpy.core import KGSym, KGFn, KGLambda
+from klongpy.core import KGSym, KGFn, KGLambda, KGFnWrapper
 from klongpy.autograd import NonScalarLossError
 torch = None
 if backend == "torch":
@@ -327,6 +327,42 @@ def elems(a):
         return [int(v) for v in a.reshape(-1)]
     return [fbits(v) for v in a.reshape(-1)]
 
+def structure(v, depth=0):
+    """structural description of any value: functions with their bodies and ARGUMENT VECTORS (projections), dictionaries, lists"""
+    if depth > 8:
+        return ["deep"]
+    if v is None:
+        return ["none"]
+    if isinstance(v, KGSym):
+        return ["sym", str(v)]
+    if isinstance(v, bool):
+        return ["bool", int(v)]
+    if isinstance(v, int):
+        return ["int", v]
+    if isinstance(v, float):
+        return ["float", fbits(v)]
+    if isinstance(v, str):
+        return ["str", v]
+    if isinstance(v, np.ndarray) and v.dtype == object:
+        return ["objarr", list(v.shape)] + [structure(x, depth + 1) for x in v.reshape(-1)]
+    if isinstance(v, (np.ndarray, np.integer, np.floating)) or (torch is not None and isinstance(v, torch.Tensor)):
+        return canon(v, [])[:-1]
+    if isinstance(v, (list, tuple)):
+        return [type(v).__name__] + [structure(x, depth + 1) for x in v]
+    if isinstance(v, dict):
+        return ["dict"] + sorted(([structure(a, depth + 1), structure(b, depth + 1)] for a, b in v.items()), key=repr)
+    if isinstance(v, KGFn):
+        return [type(v).__name__, structure(v.a, depth + 1), structure(v.args, depth + 1), structure(getattr(v, "arity", None))]
+    if isinstance(v, KGLambda):
+        return ["KGLambda", getattr(getattr(v, "fn", None), "__name__", "?")]
+    if isinstance(v, KGFnWrapper):
+        return ["KGFnWrapper"]
+    r = [type(v).__name__]
+    for attr in ("a", "args", "arity"):
+        if hasattr(v, attr):
+            r.append(structure(getattr(v, attr), depth + 1))
+    return r
+
 def canon(v, init_objs):
     ident = -1
     for i, o in enumerate(init_objs):
@@ -341,7 +377,7 @@ def canon(v, init_objs):
         return ["float", fbits(v)]
     if isinstance(v, np.ndarray):
         if v.dtype == object:
-            return ["obj", "ndarray-object", ident]
+            return ["obj", "ndarray-object", ident, structure(v)]
         return ["nd", str(v.dtype), list(v.shape), elems(v), ident]
     if torch is not None and isinstance(v, torch.Tensor):
         return ["tt", str(v.dtype).replace("torch.", ""), list(v.shape), elems(v.detach().cpu().numpy()), int(bool(v.requires_grad)), ident]
@@ -349,7 +385,7 @@ def canon(v, init_objs):
         return ["npscalar", str(v.dtype), elems(v), ident]
     if isinstance(v, KGSym):
         return ["sym", str(v)]
-    return ["obj", type(v).__name__, ident]
+    return ["obj", type(v).__name__, ident, structure(v)]
 
 def classify_result(r):
     """what the differentiated function handed back, as the model's fval"""
@@ -398,12 +434,15 @@ def run_case(case, fault_kind, fault_k):
     def snapshot():
         return [[str(n), canon(v, init_objs)] for n, v in gd.items()]
     def tick(x):
+        if st.get("probing"):
+            return 0               # f() before/after is an observation, not one of the operator's evaluations
         st["n"] += 1
         st["snaps"].append(snapshot())
         st["args"].append(None if case["nilad"] else canon(x, init_objs))
         return 1 if st["n"] == fault_k else 0
     def probe(x):
-        st["outs"][st["n"]] = classify_result(x)
+        if not st.get("probing"):
+            st["outs"][st["n"]] = classify_result(x)
         return x
     def boom(x):
         raise Boom()
@@ -437,10 +476,13 @@ def run_case(case, fault_kind, fault_k):
     init_names = [str(n) for n in gd.keys()]
     init = snapshot()
     def fprobe():
+        st["probing"] = True
         try:
             return canon(k(case["probe_expr"]), [])
         except Exception as e:
             return ["exc", type(e).__name__]
+        finally:
+            st["probing"] = False
     def canary():
         # an evaluation that produces inf under the backend's normal floating-point mode
         try:
@@ -674,6 +716,26 @@ def build_cases(backend, tier, rng):
                             ("nested-grad-under:>", "{+/x∇r}:>q", "r(q)"), ("nested-:>-under-nabla", "q∇{+/r:>x}", "r(q)"),
                             ("nested-local", "q∇hh", "hh(q)"), ("nested-jac-of-jac", "q∂{+/x∂{x*x}}", "r(q)")):
         cases.append(dict(g3, label=nm, expr=expr, probe_expr=probe))
+    # the differentiated function is a NAMED PROJECTION (arity 2 and 3, open slot first / last): its argument vector must not be
+    # touched (function values are compared structurally) and g(v) for a fresh v must give what it gave   [property oracle only]
+    g4 = {"params": [["p", ["klong", lit([1.0, 2.0, 3.0])]], ["v", ["klong", lit([5.0, 7.0, 9.0])]], ["s", ["klong", "2.0"]]],
+          "nilad": False, "form": "scoped", "fname": "f", "probe_expr": "g(v)"}
+    projs = (("proj2-first", "fd::{probe(finner(x))+0*y}", "g::fd(;2.0)"), ("proj2-last", "fd::{probe(finner(y))+0*x}", "g::fd(2.0;)"),
+             ("proj3-first", "fd::{probe(finner(x))+0*(y+z)}", "g::fd(;2.0;3.0)"), ("proj3-last", "fd::{probe(finner(z))+0*(x+y)}", "g::fd(1.0;2.0;)"),
+             ("proj3-middle", "fd::{probe(finner(y))+0*(x+z)}", "g::fd(1.0;;3.0)"), ("proj2-array", "fd::{probe(finner(x))+0*+/y}", "g::fd(;v)"))
+    for nm, d1, d2 in projs:
+        for fnm, expr, good, faults in (("gradvar", "g:>p", "+/x*x", ["raise", "vector"]), ("nabla", "p∇g", "+/x*x", ["raise", "nonnum"]),
+                                        ("jac", "p∂g", "x*x", ["raise"]), ("sysjac", ".jacobian(g;p)", "x*x", ["raise"]),
+                                        ("gradscalar", "g:>s", "+/x*x", ["raise"]), ("gradlit", "g:>[1.0 2.0]", "+/x*x", [])):
+            cases.append(dict(g4, label=nm + "/" + fnm, pre=[d1, d2], expr=expr, good=good, faults=faults))
+    # failures BEFORE anything is bound: operands swapped (the left symbol of ∇ names a function), the parameter bound to a dictionary,
+    # a string, :undefined; all globals are compared structurally before/after, fgood(p) must still work
+    g5 = {"params": [["p", ["klong", lit([1.0, 2.0, 3.0])]], ["d", ["klong", ":{[1 2] [3 4]}"]], ["t", ["klong", '"abc"']], ["u", ["klong", "1%0"]]],
+          "nilad": False, "form": "scoped", "fname": "f", "good": "+/x*x", "faults": [], "probe_expr": "fgood(p)",
+          "pre": ["gp::fgood(;2.0)", "h2::{x+y}"]}
+    for expr in ("fgood∇p", "f∇p", "gp∇p", "h2∇p", "d∇f", "t∇f", "u∇f", "f:>d", "f:>t", "f:>u", "d∂f", "t∂f", "f:>[d t]", "[d u]∂f", "f:>[fgood p]", "[p gp]∂f",
+                 "fgood:>fgood", "tick∇p", "p∇d", "p∇t"):
+        cases.append(dict(g5, label="early/" + expr, expr=expr))
     g2 = {"params": [["w", ["klong", lit([5.0])]], ["b", ["klong", "9"]]], "nilad": True, "form": "scoped", "fname": "f", "probe_expr": "fgood()"}
     for nm, body, good in (("locals-multi:>", "{[w b];w::[1.0 2.0];b::3.0;f:>[w b];w,b}", "(+/w*w)+(+/b*b)"),
                            ("locals-multi-jac", "{[w b];w::[1.0 2.0];b::3.0;[w b]∂f;w,b}", "(w*w),b*b")):
